@@ -19,6 +19,7 @@
 
 #include "_config.h"
 #include "_assert.h"
+#include "_template_helpers.h"
 
 #include "../profiling.h"
 #include <cstddef>
@@ -52,7 +53,13 @@ public:
     Type* new_object(execution_data& ed, Args&&... args) {
         void* allocated_object = r1::allocate(m_pool, sizeof(Type), ed);
 
-        auto constructed_object = new(allocated_object) Type(std::forward<Args>(args)...);
+        Type* constructed_object = nullptr;
+        // Give the storage back if the constructor throws
+        try_call([&] {
+            constructed_object = new(allocated_object) Type(std::forward<Args>(args)...);
+        }).on_exception([&] {
+            r1::deallocate(*m_pool, allocated_object, sizeof(Type), ed);
+        });
         return constructed_object;
     }
 
@@ -60,7 +67,13 @@ public:
     Type* new_object(Args&&... args) {
         void* allocated_object = r1::allocate(m_pool, sizeof(Type));
 
-        auto constructed_object = new(allocated_object) Type(std::forward<Args>(args)...);
+        Type* constructed_object = nullptr;
+        // Give the storage back if the constructor throws
+        try_call([&] {
+            constructed_object = new(allocated_object) Type(std::forward<Args>(args)...);
+        }).on_exception([&] {
+            r1::deallocate(*m_pool, allocated_object, sizeof(Type));
+        });
         return constructed_object;
     }
 
